@@ -331,6 +331,12 @@ def regenerate():
         node_files = gen_nodes.generate_all(trees["core"])
     except (SyntaxError, OSError) as e:
         node_files = {"KN_" + c: (None, str(e)) for c in gen_nodes.ORDER}
+    # Stream._emit / _retain_refs / _release_refs in the world-level monad (harness/gen_emit.py)
+    import gen_emit
+    try:
+        node_files.update(gen_emit.generate_all(trees["core"]))
+    except (SyntaxError, OSError, KeyError) as e:
+        node_files.update({stem: (None, str(e)) for stem in gen_emit.ORDER})
     for name, (text, err) in node_files.items():
         if err is not None:
             text = "(* kernel no longer translatable: %s *)\nDefinition kernel_not_translatable : False := I.\n" % err.replace("*)", "* )").replace("(*", "( *")
@@ -349,7 +355,8 @@ def regenerate():
 if __name__ == "__main__":
     e = regenerate()
     import gen_nodes
-    for name in [k[0] for k in KERNELS] + ["KN_" + c for c in gen_nodes.ORDER]:
+    import gen_emit
+    for name in [k[0] for k in KERNELS] + ["KN_" + c for c in gen_nodes.ORDER] + gen_emit.ORDER:
         if len(sys.argv) > 1 and name not in sys.argv[1:]:
             continue
         print(open(os.path.join(VERIF, "coq", "theories", "Gen", name + ".v")).read())
